@@ -39,4 +39,27 @@ PROPERTIES = {
             {"name": "c07_mulinv_san", "src": "c07_channel_mul_inv.cpp", "mode": "asan", "flags": ['-DVERIF_TARGET_NAME="c07_mulinv_san"', "-DVERIF_STRIDE=16"], "subtargets": [], "threads": 8, "subset": True},
         ],
     },
+    "C09": {
+        "level": "exploration",
+        "assumptions": [
+            "neutral clause (black->black, white->white) is checked among rgb, opaque rgba and cmyk only, as stated; gray<->cmyk is left out (the source documents its own doubt there)",
+            ">8-bit rgb->gray goes through float32: tolerance = one destination unit (or one source unit if coarser) + 4*2^-22 of the range",
+        ],
+        "targets": [
+            {"name": "c09_sweep", "src": "c09_color_sweep.cpp", "mode": "fast", "flags": ['-DVERIF_TARGET_NAME="c09_sweep"'], "subtargets": ["rgb8", "mono", "rgba8", "cmyk8", "pair"], "exclusive": True},
+            {"name": "c09_sweep_san", "src": "c09_color_sweep.cpp", "mode": "asan", "flags": ['-DVERIF_TARGET_NAME="c09_sweep_san"', "-DVERIF_STRIDE=16"], "subtargets": [], "threads": 8, "subset": True},
+        ],
+    },
+    "C18": {
+        "level": "exploration",
+        "assumptions": [
+            "no rgb->cmyka converter exists in the toolbox (only cmyka->rgba and cmyka->cmyka): the cmyka leg is rgb8 -> core cmyk -> append alpha -> toolbox cmyka->rgba",
+            "tolerances are fixed: hsv/hsl/xyz 0, lab 1, ycbcr601/709 3 (studio-range / truncating quantisation), measured once and then frozen",
+            "range tolerance 1e-4 on [0,1] channels (the statement's 'up to float32 precision'; hsl saturation reaches 1.00002)",
+        ],
+        "targets": [
+            {"name": "c18_toolbox", "src": "c18_toolbox_color.cpp", "mode": "fast", "flags": ['-DVERIF_TARGET_NAME="c18_toolbox"'], "subtargets": ["rt", "hue", "huecont", "ga8", "ga16", "lum", "cmyka"], "exclusive": True},
+            {"name": "c18_toolbox_san", "src": "c18_toolbox_color.cpp", "mode": "asan", "flags": ['-DVERIF_TARGET_NAME="c18_toolbox_san"', "-DVERIF_STRIDE=16"], "subtargets": [], "threads": 8, "subset": True},
+        ],
+    },
 }
